@@ -1,15 +1,17 @@
 // Bounded stand-in for the clauses of C06 and C07 that the contracts do not state (labelled
 // BOUNDED, never counted as proved): for every sequence of cache operations up to a bound, over
 // overlapping paths of a small tree,
-//   C06: the remote is untouched before Commit; after a successful Commit (also a second one,
-//        also with a Commit in the middle of the sequence) the remote tree equals the tree
-//        obtained by applying the same successful operations directly to the initial remote;
-//   C07: after every operation, what the cache shows (walk of ReadDir/ReadFile, plus
-//        IsExist/IsFile/IsDir/Lstat of every path of interest) equals the directly modified tree.
+//
+//	C06: the remote is untouched before Commit; after a successful Commit (also a second one,
+//	     also with a Commit in the middle of the sequence) the remote tree equals the tree
+//	     obtained by applying the same successful operations directly to the initial remote;
+//	C07: after every operation, what the cache shows (walk of ReadDir/ReadFile, plus
+//	     IsExist/IsFile/IsDir/Lstat of every path of interest) equals the directly modified tree.
+//
 // The reference is the in-memory filespace itself (C01), applied directly. It drives the real
 // fscache of /repo.
 //
-//   c06 -len <L> [-check remote|view|both] -out <json>
+//	c06 -len <L> [-check remote|view|both] -out <json>
 package main
 
 import (
